@@ -150,6 +150,12 @@ func C08(p *core.Program, r *core.Report) {
 		}
 	}
 	r.Floor("E8", 5)
+	// E10: the extractors find the media elements of the page as it was copied: no pass removes or
+	// rewrites anything before the walk, except the two reviewed removal passes (shared with C18-T7)
+	checkConvertWalksFaithfulClone(p, r, "E10")
+	// E11: what the table classifier and the caption code read as the text of an element is what
+	// the documented collector gathers (shared with C04-V5)
+	checkInnerTextCollector(p, r, "E11")
 
 	// E9: a wrapper (div, section, header, heading) is dropped as empty - and the media inside it
 	// with it - only if it has no text and each of its CHILDREN is a line break or a rule. The
